@@ -768,7 +768,38 @@ func (ck *checker) proveFamily(t *trie.Trie, fam *family, universe []tl.Key, r *
 			for _, h := range hs {
 				ck.soundness(fam, h.p, h.kind, all, r, level)
 			}
+			if !compressed && len(all) > 0 {
+				ck.craftedProbe(all[0])
+			}
 		}
+	}
+}
+
+// craftedProbe is an OBSERVATION outside the statement's domain (values are 32-byte hashes):
+// leaf = H(key ‖ value ‖ height) and interior = H(left ‖ right) share a preimage format when
+// the value is 31 bytes long, so the root node (left,right) with right[31] == byte(256) == 0
+// verifies as the "leaf" key=left, value=right[:31] with an empty audit path.  Counted only.
+func (ck *checker) craftedProbe(p *proofObj) {
+	n := len(p.AP)
+	if n == 0 || p.Compressed {
+		return
+	}
+	nodes := pathNodes(p)
+	l, rgt := nodes[n-1], p.AP[n-1]
+	if bit(p.Key, 0) {
+		l, rgt = rgt, l
+	}
+	if len(l) != 32 || len(rgt) != 32 {
+		return
+	}
+	ck.c.Count("crafted_probe_roots_with_two_children", 1)
+	if rgt[31] != 0 {
+		return
+	}
+	ck.c.Count("crafted_probe_candidates(right_child_ends_in_00)", 1)
+	q := &proofObj{Inclusion: true, Root: cp(p.Root), Key: cp(l), Value: cp(rgt[:31])}
+	if ok, _ := verifyRepo(q); ok {
+		ck.c.Count("crafted_interior_node_as_leaf_with_31_byte_value_ACCEPTED(out_of_domain,not_flagged)", 1)
 	}
 }
 
